@@ -20,6 +20,7 @@ prop=$1; tier=${2:-quick}
 mkdir -p "$out"
 VERIF_REPO=$wt VERIF_OUTDIR=$out VERIF_WORK=/verif/.work/mut-$name-$$ /verif/verif check "$prop" --tier "$tier" > "$out/log" 2>&1
 rc=$?
+if [ $rc -eq 1 ] && ! grep -q '^VIOLATION property=' "$out/log"; then rc=2; fi
 if [ $rc -eq 1 ]; then echo "MUTANT $name on $prop: DETECTED ($(grep -m1 -E 'failure in|REPLAY-FAIL|process crash' "$out/log" | cut -c1-220))";
 elif [ $rc -eq 0 ]; then echo "MUTANT $name on $prop: MISSED"; else echo "MUTANT $name on $prop: INCONCLUSIVE rc=$rc"; tail -5 "$out/log"; fi
 git -C /repo worktree remove --force "$wt"
